@@ -141,6 +141,8 @@ func (d CommodityDirective) GetRange() Range { return d.Range }
 type Include struct {
 	Path  string
 	Range Range
+	// PathRange covers the path only (Range covers the whole directive).
+	PathRange Range
 }
 
 func (Include) directive()        {}
